@@ -19,6 +19,8 @@ def main():
         sys.exit(core.run_replay(a.replay))
     seed = int(os.environ.get("VERIF_SEED", "0") or 0)
     os.environ["PYVC_TIER"] = a.tier
+    if a.write_baseline:
+        os.environ["PYVC_WRITE_BASELINE"] = "1"      # the old baseline is being replaced: do not compare against it
     chk = core.Check(a.prop, a.tier, seed)
     try:
         mod = importlib.import_module(f"contracts.{a.prop}")
